@@ -82,6 +82,8 @@ impl<'b> LuaDocParser<'_, 'b> {
         }
 
         self.type_nesting_level += 1;
+        #[cfg(emmyluals_emmylua_analyzer_rust_verif)]
+        crate::verif_depth::note_type_level(self.type_nesting_level);
         Ok(())
     }
 
